@@ -232,3 +232,72 @@ func (in *Interp) collectInner(p *Value, set map[*Value]bool, depth int) {
 }
 
 // int-mode arithmetic: see intmode.go
+
+// collectAll gathers every cell and map reachable from v (used for the shared package-level state).
+func (in *Interp) collectAll(v Value, cells map[*Value]bool, maps map[*Map]bool, depth int) {
+	if depth > 200 {
+		return
+	}
+	switch v := v.(type) {
+	case Iface:
+		in.collectAll(v.V, cells, maps, depth+1)
+	case *Value:
+		if v == nil || cells[v] {
+			return
+		}
+		cells[v] = true
+		in.collectAllInner(v, cells, maps, depth+1)
+	case Slice:
+		full := v.A[:cap(v.A)]
+		for i := range full {
+			if !cells[&full[i]] {
+				cells[&full[i]] = true
+				in.collectAllInner(&full[i], cells, maps, depth+1)
+			}
+		}
+	case Struct:
+		for i := range v {
+			in.collectAll(v[i], cells, maps, depth+1)
+		}
+	case Array:
+		for i := range v {
+			in.collectAll(v[i], cells, maps, depth+1)
+		}
+	case *Map:
+		if v == nil || maps[v] {
+			return
+		}
+		maps[v] = true
+		for _, e := range v.entries {
+			in.collectAll(e.K, cells, maps, depth+1)
+			in.collectAll(e.V, cells, maps, depth+1)
+		}
+	case *Closure:
+		if v != nil {
+			for _, e := range v.Env {
+				in.collectAll(e, cells, maps, depth+1)
+			}
+		}
+	case *Opaque:
+		if v != nil {
+			in.collectAll(v.Cause, cells, maps, depth+1)
+		}
+	}
+}
+
+func (in *Interp) collectAllInner(p *Value, cells map[*Value]bool, maps map[*Map]bool, depth int) {
+	switch c := (*p).(type) {
+	case Struct:
+		for i := range c {
+			cells[&c[i]] = true
+			in.collectAllInner(&c[i], cells, maps, depth+1)
+		}
+	case Array:
+		for i := range c {
+			cells[&c[i]] = true
+			in.collectAllInner(&c[i], cells, maps, depth+1)
+		}
+	default:
+		in.collectAll(c, cells, maps, depth+1)
+	}
+}
